@@ -2,6 +2,7 @@
    [exact lemma] and Print Assumptions. *)
 From V Require Import Common.Base Common.Utf8 C07.LineCol C07.Builder C07.BuilderProofs C07.LineColAux C07.LineColProofs C07.Shift C07.ShiftAux C07.ShiftProofs C07.Vlq C07.SpecMap C07.Mappings C07.VlqProofs C07.MappingsProofs C07.FindProofs C07.JoinProofs C07.SpecBuilder C07.BuilderExact C07.JoinAll C07.JoinAllProofs C07.Pipeline C07.BuilderIn C07.BuilderInProofs C07.AdvConcat C07.ParseMap C07.ParseMapProofs.
 From V Require C16.Checked C16.Vlq16 C16.Vlq16Proofs.
+From V Require C19.Json C19.JsonSpec C19.JsonProofs C07.SmJson C07.SmJsonProofs C07.SmPipeline.
 
 (* encodeVLQ/DecodeVLQ round trip, every integer, arbitrary trailing bytes *)
 Theorem vlq_roundtrip : forall v rest, DecodeVLQ (encodeVLQ v ++ rest) = Some (v, rest).
@@ -282,3 +283,46 @@ Theorem parse_model_refines_c16 : forall raw lo co so no sl nl fuel st current a
   erase (mloop_ns raw lo co so no sl nl fuel st current acc ns) = Vlq16.mloop raw lo co so no sl nl fuel st current acc.
 Proof. exact mloop_ns_erase. Qed.
 Print Assumptions parse_model_refines_c16.
+
+(* The text of the emitted map (SmJson.v: the AddString / QuoteForJSON calls of
+   generateSourceMapForChunk around the mappings), for every list of sources,
+   optional source root, optional list of file contents, every names list (any
+   bytes: control characters, quotes, invalid UTF-8 ...) and every mappings
+   string made of mapping characters: the text is accepted by the RFC 8259
+   parser of coq/C19/JsonSpec.v and denotes the object
+     version 3, sources, [sourceRoot], [sourcesContent], mappings, names
+   where every string reads back as the UTF-16 units of the bytes it was written
+   from (C19.json_quote_roundtrip, imported: an invalid byte reads as U+FFFD)
+   and "mappings" reads back as the mappings string itself. *)
+Theorem sourcemap_text_parses : forall ascii sources root contents mappings names,
+  Forall JsonProofs.bytes_ok sources ->
+  (forall r, root = Some r -> JsonProofs.bytes_ok r) ->
+  (forall cs, contents = Some cs -> Forall JsonProofs.bytes_ok cs) ->
+  Forall SmJsonProofs.safe_char mappings -> Forall JsonProofs.bytes_ok names ->
+  JsonSpec.parse_json (SmJson.sourcemap_text ascii sources root contents mappings names) =
+  Some (SmJsonProofs.sm_jv sources root contents mappings names).
+Proof. exact SmJsonProofs.sm_json_all. Qed.
+Print Assumptions sourcemap_text_parses.
+
+(* ... and for the map esbuild emits for a chunk: n source files through the
+   builder, the joining loop and Finalize (pipeline_exact), with one (source
+   path, file contents) item per "sources" entry: the emitted text is
+   well-formed JSON whose "version" is 3, whose "sources" and "sourcesContent"
+   have one entry per item -- sourcesContent[i] is exactly file i's text (absent
+   altogether with --sources-content=false) --, whose "names" are the given
+   names and whose "mappings" is the string that pipeline_exact decodes. *)
+Theorem sourcemap_json_wellformed_and_faithful :
+  forall (sfs : list src_file) sh ascii (items : list (bytes * bytes)) root excl (names : list bytes),
+  Forall src_ok sfs -> shifts_wf sh ->
+  Forall (fun it => JsonProofs.bytes_ok (fst it) /\ JsonProofs.bytes_ok (snd it)) items ->
+  (forall r, root = Some r -> JsonProofs.bytes_ok r) -> Forall JsonProofs.bytes_ok names ->
+  exists rs m result,
+    map built_res sfs = map Some rs /\
+    join_all rs = Some m /\
+    Finalize sh m = Some result /\
+    spec_decode result =
+      Some (map (shift_abs sh) (joined_abs (assign_sources rs [] 0) (map spec_file sfs) (0, 0) 0)) /\
+    JsonSpec.parse_json (SmJsonProofs.sourcemap_text_items ascii items root excl result names) =
+      Some (SmJsonProofs.sm_jv (map fst items) root (if excl then None else Some (map snd items)) result names).
+Proof. exact SmPipeline.sourcemap_json_all. Qed.
+Print Assumptions sourcemap_json_wellformed_and_faithful.
